@@ -24,6 +24,9 @@ def main():
     ap.add_argument("--replay")
     a = ap.parse_args()
     pid = a.pid.upper()
+    repo = os.environ.get("CUQIVERIF_REPO", "/repo")   # development only: point the checks at a scratch worktree
+    if repo != "/repo":
+        sys.path.insert(0, repo)
     from cuqiverif.core import Run, MachineryError
     ctx = Run(pid, a.tier, a.seed, replay=a.replay)
     try:
@@ -32,8 +35,8 @@ def main():
         print("no check for %s: %s" % (pid, e))
         return 2
     try:
-        import cuqi  # noqa: F401  (fresh import of /repo's working tree)
-        assert os.path.realpath(cuqi.__file__).startswith("/repo/"), cuqi.__file__
+        import cuqi  # noqa: F401  (fresh import of the repository's working tree)
+        assert os.path.realpath(cuqi.__file__).startswith(os.path.realpath(repo) + "/"), cuqi.__file__
         if a.replay:
             rp = json.load(open(a.replay))
             cases = [rp["first"]["case"]] + rp.get("others", [])
